@@ -485,7 +485,13 @@ def do_zone(env, ctx, op):
             expect = ("offset", off, None)
             tag = "tz.numeric"
         if off == 0:
-            expect = ("utc",)
+            # a bare zero offset is normalised to the name "UTC" (a local
+            # name when TZ is UTC or unset); with an explicit (NAME) it stays
+            # a zero offset and gives UTC
+            if kind == "numeric" and "UTC" in names_local:
+                expect = ("local_or_utc",)
+            else:
+                expect = ("utc",)
     elif kind == "gmt_plus":
         word, h = op[4], op[5]
         if word in names_local:
